@@ -45,6 +45,11 @@ THEOREMS = [
     "C12.same_effect_linear_range_downgrade",
     "C12.same_effect_counterexample",
     "C12.same_effect_statement_false",
+    "C12.midOk_of_run",
+    "C12.midOk_upgrade_plan",
+    "C12.midOk_downgrade_plan",
+    "C12.same_effect_upgrade_plan",
+    "C12.same_effect_downgrade_plan",
 ]
 PARTIAL = {
     "C12.same_effect_partial": (
@@ -52,9 +57,12 @@ PARTIAL = {
         "finding C12-TAB; (2) op.execute texts are plain single statements (plainText) that are not version-table statements; (3) statements are "
         "statements of the language (stmtWf: non-empty column/value lists, user tables not named alembic_version, version numbers without a quote); "
         "(4) the head set is empty only before the first / after the last step (midOk) - discharged for linear histories by "
-        "C12.same_effect_linear_upgrade/_downgrade/_range, where plan and version statements are derived; for branched/merged histories the "
-        "version operations per step are a parameter (any list of insert/update/delete; which ones alembic picks is property C03's row algebra) "
-        "and the harness feeds the real ones. That every rendered statement is read back as itself is now a theorem (C12.reads_back), no longer a "
+        "C12.same_effect_linear_upgrade/_downgrade/_range, where plan and version statements are derived, and for EVERY history (branches, merge "
+        "points, several roots, dependencies) by C12.same_effect_upgrade_plan / _downgrade_plan: for every plan Alembic computes (C01.UpgradePlan / "
+        "C02.DowngradePlan) from a version table consistent with the applied set, with the version operations the bookkeeping model of C03 issues "
+        "along it (verLists over Model.Rev.updateToStep), midOk follows from C03's invariant (the table holds the maximal applied revisions, so it "
+        "is non-empty while anything is applied); what stays a parameter there is only the bodies. In the harness the version operations per step "
+        "are still read from the real HeadMaintainer (that those agree with the bookkeeping model is C03's correspondence). That every rendered statement is read back as itself is now a theorem (C12.reads_back), no longer a "
         "hypothesis. Not modelled: the online-only rowcount check; literal rendering of floats/Decimal/dates/booleans (implementation-side oracle only); "
         "DROP COLUMN is outside the Lean language (harness only)."
     ),
